@@ -189,7 +189,20 @@ impl InnerLocustDB {
     fn worker_loop(locustdb: Arc<InnerLocustDB>) {
         while locustdb.running.load(Ordering::SeqCst) {
             if let Some(task) = InnerLocustDB::await_task(&locustdb) {
-                task.execute();
+                // A panicking task must not take the worker thread down with it.
+                let result =
+                    std::panic::catch_unwind(std::panic::AssertUnwindSafe(|| task.execute()));
+                if let Err(panic) = result {
+                    let reason = if let Some(s) = panic.downcast_ref::<&str>() {
+                        s.to_string()
+                    } else if let Some(s) = panic.downcast_ref::<String>() {
+                        s.clone()
+                    } else {
+                        "unknown panic".to_string()
+                    };
+                    error!("Worker task panicked: {}", reason);
+                    task.abort(&reason);
+                }
             }
         }
         drop(locustdb) // Make clippy happy
